@@ -157,7 +157,22 @@ def run(p, script, seed=0):
         k = {"zero": 0, "pos": calls[0], "pos1": calls[0] % 3 + 1, "same": 2}[istyle]
         return pd.DataFrame([row], index=[k])
     pending = []      # labelled rows given so far in this waiting period (to compute their bits when they become the reference)
+    # a second MD3 (its own classifier, reference and stream) alive next to the observed one
+    from .core import Neighbour
+    nclf = ThresholdClf("fixed").fit(np.zeros((2, 2)), [0, 1])
+    nbd = MD3(clf=nclf, margin_calculation_function=margin, sensitivity=1.0, k=2, oracle_data_length_required=3)
+    nbd.set_reference(pd.DataFrame([{"x0": float((3 * i) % 7 - 3), "x1": float(i % 3), "y": int((3 * i) % 7 - 3 > 0)} for i in range(12)]), target_name="y")
+
+    def nfeed(o, u):
+        row = {"x0": round(8 * u - 4, 2), "x1": 1.0}
+        if o.waiting_for_oracle:
+            row["y"] = int(row["x0"] > 0)
+            o.give_oracle_label(pd.DataFrame([row]))
+        else:
+            o.update(pd.DataFrame([row]))
+    nb = Neighbour(nbd, nfeed, seed)
     for s in script:
+        nb.step()
         kind = s[0]
         raised = "None"
         e = {"op": "update" if kind.startswith("update") else "label", "m": 0, "c": 0, "nrows": 1, "colsok": True, "newref": []}
